@@ -103,7 +103,7 @@ def actions_from_prints(ctx, module, r):
 
 # --------------------------------------------------------------------------- attribution
 
-def attribute(ctx, module, scenarios, run_scn, features, neutralise, fp_of, context_of, describe, max_scn=400):
+def attribute(ctx, module, scenarios, run_scn, features, neutralise, fp_of, context_of, describe, max_scn=None):
     """Name the cause of each rejected scenario.
 
     scenarios : list of scenario dicts whose real execution TLC rejected
@@ -119,8 +119,10 @@ def attribute(ctx, module, scenarios, run_scn, features, neutralise, fp_of, cont
     primary executions is not inflated).
     """
     out = []
-    todo = scenarios[:max_scn]
-    for s in scenarios[max_scn:]:
+    # every rejected execution is attributed (no cap: an unattributed rejection could hide a new defect
+    # behind a known one; a cap turned known findings into VIOLATION lines in the thorough tier)
+    todo = scenarios if max_scn is None else scenarios[:max_scn]
+    for s in ([] if max_scn is None else scenarios[max_scn:]):
         out.append(("unattributed:" + context_of(s), "rejected execution not attributed (cap %d reached): %s" % (max_scn, describe(s)), s))
     if not todo:
         return out
